@@ -29,6 +29,11 @@ def extra_worlds():
         {"all.do": [S(deps=["q1", "q2"])], "q1.do": [S(deps=["p", "qs"])], "q2.do": [S(deps=["p", "qs"], out="file")],
          "p.do": [S(deps=["t"])], "t.do": [S(kind="csum", deps=["s"], out="file")]},
         ["all", "q1", "q2", "p", "t"], ["all"])
+    w["csum-stops"] = World(   # a shared target that recorded a checksum and whose script has stopped calling redo-stamp
+        "csum-stops", {"s": ["0", "2"]},
+        {"all.do": [S(deps=["a", "b"])], "a.do": [S(deps=["c"])], "b.do": [S(deps=["c"], out="file")],
+         "c.do": [S(kind="csum", deps=["s"], out="file"), S(deps=["s"], out="file", tag="nostamp")]},
+        ["all", "a", "b", "c"], ["all"])
     w["chain3"] = World(
         "chain3", {"s": ["0", "1"]},
         {"t1.do": [S(deps=["m"])], "t2.do": [S(deps=["m"], out="file")], "m.do": [S(deps=["l"])], "l.do": [S(deps=["s"])]},
@@ -49,6 +54,8 @@ def scenarios(tier):
     L.append((SC.scn("oob-shared-rebuild-j2", w["oobshare"], ["redo --no-log -j2 all"],
                      setup=[["ifchange", ["all"]], ["edit", "s", "2"], ["edit", "qs", "1"]], visible=VIS), 1 if q else 2))
     L.append((SC.scn("always-shared-j2", w["always-shared"], ["redo --no-log -j2 top"], visible=VIS), 1 if q else 2))
+    L.append((SC.scn("csum-stops-stamping-shared-j2", w["csum-stops"], ["redo --no-log -j2 all"],
+                     setup=[["ifchange", ["all"]], ["dovar", "c.do", 1], ["edit", "s", "2"]], visible=VIS), 1 if q else 2))
     # every order of the command line (what --shuffle can produce) for two targets sharing a chain
     for perm in itertools.permutations(["t1", "t2"]):
         L.append((SC.scn("chain3-j2-" + "".join(perm), w["chain3"], ["redo --no-log -j2 " + " ".join(perm)], visible=VIS), 1 if q else 2))
